@@ -71,6 +71,7 @@ Proof.
   unfold handle_last_will. intros H.
   destruct (al_get str_eqb c (r_wills st)) as [w|]; [|now inv_ok].
   destruct (negb (utf8_valid _)); [now inv_ok|].
+  match type of H with (if ?b then _ else _) = _ => destruct b end; [now inv_ok|].
   apply bind_ok in H as ([st3 idxs] & H3 & H). apply bind_ok in H as (st4 & H4 & H).
   apply dl_matches_groups in H3. apply append_all_groups in H4. apply drain_notifications_groups in H.
   rewrite retain_update_groups in H3. rewrite H, H4, H3. reflexivity.
